@@ -264,7 +264,12 @@ func runBounds(p *Prog, c *Check, roots []*ssa.Function, opts *boundsOpts) bound
 			st.obligations++
 			ok, how, why := dischargeObligation(p, fn, o, opts, 0)
 			if !ok {
-				if reason, rev := opts.reviewed[o.key]; rev {
+				reason, rev := opts.reviewed[o.key]
+				if !rev {
+					reason, rev = opts.reviewed[canonParamKey(fn, o.key)]
+				}
+				if rev {
+					debugf("reviewed %q canonical %q", o.key, canonParamKey(fn, o.key))
 					st.reviewedHit++
 					c.Ok(opts.rule, o.key, p.siteOf(o.instr), shortFn(fn), o.kind+": "+o.desc, "reviewed: "+reason)
 					continue
@@ -744,4 +749,34 @@ func bridgeResiduals(rs []residual) []residual {
 		}
 	}
 	return out
+}
+
+// canonParamKey: an obligation key with the function's parameter and captured-variable names replaced
+// by their positions ($0, $1, … / ^0, ^1, …), so that a reviewed entry survives a rename of locals.
+func canonParamKey(fn *ssa.Function, key string) string {
+	parts := strings.SplitN(key, "|", 3)
+	if len(parts) != 3 {
+		return key
+	}
+	ops := parts[2]
+	type rep struct{ name, to string }
+	var reps []rep
+	for i, prm := range fn.Params {
+		reps = append(reps, rep{prm.Name(), fmt.Sprintf("$%d", i)})
+	}
+	for i, fv := range fn.FreeVars {
+		reps = append(reps, rep{"free:" + fv.Name(), fmt.Sprintf("^%d", i)})
+	}
+	// longest names first so that a name that is a prefix of another does not clobber it
+	sort.Slice(reps, func(i, j int) bool { return len(reps[i].name) > len(reps[j].name) })
+	for _, r := range reps {
+		if r.name == "" || r.name == "_" {
+			continue
+		}
+		re := regexp.MustCompile(`(^|[^A-Za-z0-9_.:])` + regexp.QuoteMeta(r.name) + `($|[^A-Za-z0-9_])`)
+		for k := 0; k < 4; k++ {
+			ops = re.ReplaceAllString(ops, "${1}"+strings.ReplaceAll(r.to, "$", "$$")+"${2}")
+		}
+	}
+	return parts[0] + "|" + parts[1] + "|" + ops
 }
